@@ -83,12 +83,15 @@ def finish_worker(ctx):
 def make_case(ctx, idx):
     r = case_rng(ctx.seed, ID, idx)
     big = r.random() < 0.5
-    ops = gen.Gen(r, gen.profile("c06", max_steps=60 if big else 8, max_bundles=1, ns_uris=gen.NS_URIS_ASCII)).program(steps=60 if big else None)
+    steps = 60 if big else None
+    if idx % 12 == 5:
+        steps = 700          # several hundred records: the serialisation crosses every usual buffer size (64 KiB and more)
+    ops = gen.Gen(r, gen.profile("c06", max_steps=60 if big else 8, max_bundles=1, ns_uris=gen.NS_URIS_ASCII)).program(steps=steps)
     fmt = FORMATS[idx % len(FORMATS)]
     # serializer options travel with the call: "exact" means the bytes this very call would hand to a stream
     kw = r.choice({"json": [{}, {"indent": 2}, {"sort_keys": True, "indent": 0}], "xml": [{}, {"force_types": True}], "provn": [{}],
                    "rdf": [{}, {"rdf_format": "nt"}, {"rdf_format": "trig"}]}[fmt])
-    return {"ops": ops, "fmt": fmt, "name": NAMES[(idx // len(FORMATS)) % len(NAMES)], "present": (idx // 2) % 2 == 0, "kw": kw,
+    return {"ops": ops, "fmt": fmt, "name": NAMES[(idx // len(FORMATS)) % len(NAMES)], "present": (idx // 2) % 2 == 0, "kw": kw, "prev": "crlf" if idx % 3 == 0 else "other",
             "oslevel": (ctx.tier == "thorough" and idx % 3 == 0) or idx % 15 == 0}
 
 
@@ -255,6 +258,7 @@ def reference_bytes(doc, fmt, kw=None):
     return b.getvalue()
 
 
+PREV_OF = [b""]
 RDF_SYNTAX = ["trig"]      # syntax of the RDF texts of the case being judged (set per case)
 
 
@@ -276,11 +280,14 @@ def content_key(fmt, data):
         return None
 
 
-def same_serialisation(fmt, got, ref, doc):
+def same_serialisation(fmt, got, ref, doc, same_process=False):
     """Byte equality, or -- because attribute values live in sets whose iteration order differs between processes (and RDF
-    blank-node labels are fresh every time) -- the same complete content."""
+    blank-node labels are fresh every time) -- the same complete content.  Within one process the JSON, XML and PROV-N texts of
+    one document are repeatable (C13), so there the file must hold exactly the bytes the same call hands to a stream."""
     if got == ref:
         return True
+    if same_process and fmt != "rdf":
+        return False
     if len(got) != len(ref) and fmt != "rdf":
         return False
     a, b = content_key(fmt, got), content_key(fmt, ref)
@@ -305,6 +312,11 @@ def run_inprocess(ctx, case, problems):
         ctx.count("skipped.unserialisable.%s.%s" % (fmt, type(e).__name__))
         return 0
     PREV = b"previous content that must survive\n" * 40
+    if case.get("prev") == "crlf" and b"\n" in ref:
+        # the destination already holds this very serialisation, except for its line ends: it still has to be replaced
+        PREV = ref.replace(b"\r\n", b"\n").replace(b"\n", b"\r\n")
+        ctx.count("previous_content.same_text_other_line_ends")
+    PREV_OF[0] = PREV
     injected = 0
     orig_fdopen, orig_replace, orig_move, orig_rename = os.fdopen, os.replace, shutil.move, os.rename
 
@@ -316,7 +328,7 @@ def run_inprocess(ctx, case, problems):
             arg, dest = resolve_name(case["name"], box.dir)
             if (present and case["name"] != "SYMLINK-TO-DIR") or case["name"] == "SYMLINK-TO-FILE":
                 with open(dest, "wb") as f:
-                    f.write(PREV)
+                    f.write(PREV_OF[0])
             before = listing(box.dir, box.tmp)
             _audit["log"] = []
             _audit["on"] = True
@@ -372,7 +384,7 @@ def run_inprocess(ctx, case, problems):
                     problems.append({"fault": None, "problem": "files created/modified/removed are %s, expected exactly [%s]"
                                      % (sorted(os.path.relpath(p, ctx.root) for p in changed), os.path.relpath(dest, ctx.root)),
                                      "audit": log[:12]})
-                elif not same_serialisation(fmt, open(dest, "rb").read(), ref, doc):
+                elif not same_serialisation(fmt, open(dest, "rb").read(), ref, doc, same_process=True):
                     problems.append({"fault": None, "problem": "bytes at the destination differ from the serialisation", "audit": log[:12]})
                 ctx.count("audit_events", len(log))
             else:
@@ -386,7 +398,7 @@ def run_inprocess(ctx, case, problems):
                         if fault[0] == "quota":
                             problems.append({"fault": label, "problem": "the file system accepted only %d of %d bytes, yet the call returned normally" % (fault[1], len(ref))})
                     # an operation that completes despite the fault must still be exact
-                    if after.get(dest) is None or not same_serialisation(fmt, open(dest, "rb").read(), ref, doc):
+                    if after.get(dest) is None or not same_serialisation(fmt, open(dest, "rb").read(), ref, doc, same_process=True):
                         problems.append({"fault": label, "problem": "call returned normally but the destination does not hold the serialisation"})
                 else:
                     if outcome.startswith("exception") or outcome.startswith("oserror"):
@@ -396,7 +408,7 @@ def run_inprocess(ctx, case, problems):
                     if now != was:
                         state = "absent" if now is None else ("%d bytes" % os.path.getsize(dest))
                         problems.append({"fault": label, "problem": "after the injected failure the destination is %s; it was %s before"
-                                         % (state, "absent" if was is None else "%d bytes" % len(PREV)), "audit": log[:12]})
+                                         % (state, "absent" if was is None else "%d bytes" % len(PREV_OF[0])), "audit": log[:12]})
                     strays = [p for p in after if p not in before]
                     if strays:
                         ctx.count("stray_files_after_failure", len(strays))
